@@ -1,5 +1,5 @@
 //! C07 range / length queries vs full extraction, on real archives.
-//! case:  q <dir> <params k,s,m,pack,threads,qcap,ff> <exh> [ignored tokens: generator recipe]
+//! case:  q <dir> <params k,s,m,pack,threads,qcap,ff> <exh>:<budget> [ignored tokens: generator recipe]
 //!   <dir> is a case directory prepared by lib/gen_samples.py (order.txt + FASTA files); the archive is created
 //!   through mk::create (the library calls ragc-cli makes), reopened with the real Decompressor, and for every
 //!   sample / contig the line reports what the model needs and what the real queries answer.
@@ -12,7 +12,8 @@
 //!     segs     get_segment_data_by_desc of every descriptor (as stored, NOT re-oriented), comma separated hex
 //!     answers  comma separated  <start hex>:<end hex>:<answer>  with answer = <len>.<hash> | <len>.<hash>.<hex>
 //!              | E | P    (hash: util of this file; the bases themselves are printed for every 61st query)
-//! queries: all pairs 0..=len+2 x 0..=len+2 when len <= exh; otherwise every junction (chosen: first / last 4 and
+//! queries: all pairs 0..=len+2 x 0..=len+2 when len <= exh (while the archive's budget of exhaustive queries
+//! lasts: bounds the size of the line); otherwise every junction (chosen: first / last 4 and
 //! 4 in the middle when there are more than 12) +-(k+1) as start, combined with a few ends (next positions,
 //! around the next two junctions, len, len+1, usize::MAX, start itself and start-1); always the usize::MAX
 //! corners and 200 pseudo-random pairs.
@@ -38,10 +39,11 @@ pub fn hash2(b: &[u8]) -> String {
     format!("{:08x}{:08x}", h1, h2)
 }
 
-fn queries(len: usize, raws: &[u32], k: usize, exh: usize, seed: u64) -> Vec<(usize, usize)> {
+fn queries(len: usize, raws: &[u32], k: usize, exh: usize, budget: &mut usize, seed: u64) -> Vec<(usize, usize)> {
     let mut q: Vec<(usize, usize)> = Vec::new();
     let m = usize::MAX;
-    if len <= exh {
+    if len <= exh && (len + 3) * (len + 3) <= *budget {
+        *budget -= (len + 3) * (len + 3);
         for s in 0..=len + 2 {
             for e in 0..=len + 2 {
                 q.push((s, e));
@@ -112,7 +114,7 @@ fn queries(len: usize, raws: &[u32], k: usize, exh: usize, seed: u64) -> Vec<(us
     q
 }
 
-fn record(d: &mut Decompressor, sample: &str, contig: &str, k: usize, exh: usize, nq: &mut usize) -> String {
+fn record(d: &mut Decompressor, sample: &str, contig: &str, k: usize, exh: usize, budget: &mut usize, nq: &mut usize) -> String {
     let lres = catch_unwind(AssertUnwindSafe(|| d.get_contig_length(sample, contig)));
     let l_s = match &lres {
         Ok(Ok(n)) => n.to_string(),
@@ -145,7 +147,7 @@ fn record(d: &mut Decompressor, sample: &str, contig: &str, k: usize, exh: usize
             .join(",")
     };
     let seed = hash2(contig.as_bytes()).bytes().fold(full_len as u64, |a, b| a.wrapping_mul(131).wrapping_add(b as u64));
-    let qs = queries(full_len, &raws, k, exh, seed);
+    let qs = queries(full_len, &raws, k, exh, budget, seed);
     let mut ans = String::with_capacity(qs.len() * 32);
     for (s, e) in qs {
         let r = catch_unwind(AssertUnwindSafe(|| d.get_contig_range(sample, contig, s, e)));
@@ -169,14 +171,14 @@ fn record(d: &mut Decompressor, sample: &str, contig: &str, k: usize, exh: usize
     format!("C {} {} {} {} {} {} {} {}", hex(sample.as_bytes()), hex(contig.as_bytes()), l_s, full_s, raws_s, rcs_s, segs_s, ans)
 }
 
-fn query_archive(path: &str, exh: usize) -> anyhow::Result<String> {
+fn query_archive(path: &str, exh: usize, mut budget: usize) -> anyhow::Result<String> {
     let mut d = Decompressor::open(path, DecompressorConfig { verbosity: 0 })?;
     let k = d.kmer_length as usize;
     let mut out = vec![format!("OK {}", k)];
     let mut nq = 0usize;
     for s in d.list_samples() {
         for c in d.list_contigs(&s)? {
-            out.push(record(&mut d, &s, &c, k, exh, &mut nq));
+            out.push(record(&mut d, &s, &c, k, exh, &mut budget, &mut nq));
         }
     }
     Ok(out.join(" | "))
@@ -185,16 +187,29 @@ fn query_archive(path: &str, exh: usize) -> anyhow::Result<String> {
 fn run(t: &[&str]) -> String {
     if t.len() >= 4 && t[0] == "q" {
         let (dir, params) = (t[1], t[2]);
-        let exh: usize = t[3].parse().unwrap();
+        let (exh, budget) = match t[3].split_once(':') {
+            Some((a, b)) => (a.parse::<usize>().unwrap(), b.parse::<usize>().unwrap()),
+            None => (t[3].parse::<usize>().unwrap(), 200_000),
+        };
         let p = mk::Params::parse(params);
         let out = format!("{}/out.agc", dir);
         let _ = std::fs::remove_file(&out);
-        match catch_unwind(|| mk::create(&out, &mk::case_inputs(dir), &p)) {
+        let t0 = std::time::Instant::now();
+        let created = catch_unwind(|| mk::create(&out, &mk::case_inputs(dir), &p));
+        if std::env::var("VERIF_C07_TIMING").is_ok() {
+            eprintln!("C07-TIMING create {:?}", t0.elapsed());
+        }
+        match created {
             Ok(Ok(())) => {}
             Ok(Err(e)) => return format!("CREATE-ERR {}", format!("{:#}", e).replace('\n', " ")),
             Err(e) => return format!("CREATE-PANIC {}", runner::panic_msg(&e).replace('\n', " ")),
         }
-        match query_archive(&out, exh) {
+        let t0 = std::time::Instant::now();
+        let r = query_archive(&out, exh, budget);
+        if std::env::var("VERIF_C07_TIMING").is_ok() {
+            eprintln!("C07-TIMING query {:?}", t0.elapsed());
+        }
+        match r {
             Ok(c) => c,
             Err(e) => format!("OPEN-ERR {}", format!("{:#}", e).replace('\n', " ")),
         }
@@ -204,5 +219,14 @@ fn run(t: &[&str]) -> String {
 }
 
 fn main() {
+    // the compressor prints diagnostics on stderr unconditionally; bin/check reads stdout and stderr together
+    if std::env::var("VERIF_PANIC_VERBOSE").is_err() && std::env::var("VERIF_C07_TIMING").is_err() {
+        unsafe {
+            let fd = libc::open(b"/dev/null\0".as_ptr() as *const libc::c_char, libc::O_WRONLY);
+            if fd >= 0 {
+                libc::dup2(fd, 2);
+            }
+        }
+    }
     runner::main_loop(run);
 }
